@@ -41,7 +41,10 @@ def strategy(draw, tier="quick"):
     g = draw(gen.grammar(regimes=[regime], weight_style=draw(st.sampled_from([None, None, 6])), **gen.size(tier)))
     # the end-of-sequence symbol is an argument of add_EOS: default, or a caller-chosen one
     eos = draw(st.sampled_from([None, None, "$", "</s>", 7, ["eos", 1]]))
-    return {"g": g, "perm": draw(st.sampled_from([0, 2, "rev"])), "eos": eos}
+    # earlier calls on the same grammar object with other solver arguments (locally_normalize forwards
+    # its keyword arguments to agenda): a truncated or coarse run must not colour the default call
+    warm = draw(st.sampled_from([None, None, None, {"maxiter": 1}, {"tol": 0.5}, {}]))
+    return {"g": g, "perm": draw(st.sampled_from([0, 2, "rev"])), "eos": eos, "warm": warm}
 
 
 def check(case, ctx):
@@ -88,6 +91,9 @@ def check(case, ctx):
     # ---- local normalisation (Float)
     Zs = total(G)
     Z = Zs[G.S]
+    if case.get("warm") is not None:
+        ctx.cls("warm:" + ",".join(sorted(case["warm"])) if case["warm"] else "warm:default")
+        ctx.call("locally_normalize.warm", lambda: locally_normalize(cfg, **case["warm"]))
     ln = ctx.call("locally_normalize", locally_normalize, cfg)
     if isinstance(ln, LibRaised):
         return
